@@ -92,7 +92,14 @@ Whiches(cls, r) ==
 (* ---------------- the implementation-shaped update ---------------- *)
 \* the gate array attached with its output legs first, or (transpose) its input legs first; dagger conjugates the
 \* array and then wires it transposed
-WireMat(G, op) == CASE op = "N" -> G [] op = "T" -> Transpose(G) [] op = "H" -> Transpose(ConjMat(G))
+\* tensor_network_gate_inds:   if dagger: G = conj(G); transpose = True     (transpose is IMPLIED by dagger)
+\* Bug "gateinds-xor" = `transpose = not transpose` there (seeded change C06-n1): wrong only with both flags.
+Dag(op) == FlagsOf(op).dagger
+Tr(op)  == FlagsOf(op).transpose
+WireMat(G, op) ==
+  LET arr == IF Dag(op) THEN ConjMat(G) ELSE G
+      tr  == IF Dag(op) THEN (IF Bug = "gateinds-xor" THEN ~Tr(op) ELSE TRUE) ELSE Tr(op)
+  IN  IF tr THEN Transpose(arr) ELSE arr
 
 \* positions p, p + step, ..., last as a sequence (a run of neighbour exchanges; at most MaxRun of them)
 RunOf(p, last, step) ==
@@ -134,8 +141,11 @@ ImplAutoSwap(G, dims, sites, v, op) ==
 ImplSubMpo(G, dims, sites, v, op) ==
   LET gd == SubDims(dims, sites)
       sp == SortPerm(sites)
-      Ga == IF op = "H" /\ Bug # "nonlocal-drops-dagger" THEN ConjMat(G) ELSE G
-      tr == (op = "T") \/ (op = "H" /\ Bug # "nonlocal-drops-dagger")
+      \* gate_TN_1D, 'nonlocal' branch:  if dagger: G = conj(G); transpose = True   (implied, since 0a1463db;
+      \* Bug "nonlocal-xor" = `transpose = not transpose`, the code between 0665402c and 0a1463db)
+      dg == Dag(op) /\ Bug # "nonlocal-drops-dagger"
+      Ga == IF dg THEN ConjMat(G) ELSE G
+      tr == IF dg THEN (IF Bug = "nonlocal-xor" THEN ~Tr(op) ELSE TRUE) ELSE Tr(op)
       Gs == IF Bug = "nosort" THEN Ga ELSE PermuteGate(Ga, gd, sp)
       M  == IF tr THEN Transpose(Gs) ELSE Gs
   IN  ApplyLocal(M, dims, Compose(sites, sp), v)
@@ -144,9 +154,9 @@ ImplSubMpo(G, dims, sites, v, op) ==
 \* if dagger or transpose
 ImplSandwich(G, dd, up, lo, v, op) ==
   LET Gc == ConjMat(G)
-      Gu == IF op = "H" /\ Bug # "sandwich-sides" THEN Gc ELSE G
-      Gl == IF op = "H" /\ Bug # "sandwich-sides" THEN G ELSE Gc
-      tr == op \in {"T", "H"}
+      Gu == IF Dag(op) /\ Bug # "sandwich-sides" THEN Gc ELSE G
+      Gl == IF Dag(op) /\ Bug # "sandwich-sides" THEN G ELSE Gc
+      tr == Dag(op) \/ Tr(op)                  \* transpose = dagger or transpose
       Wu == IF tr THEN Transpose(Gu) ELSE Gu
       Wl == IF tr THEN Transpose(Gl) ELSE Gl
   IN  ApplyLocal(Wl, dd, lo, ApplyLocal(Wu, dd, up, v))
@@ -246,7 +256,7 @@ Init ==
 
 DepthBound == IF geom.depth > 0 THEN geom.depth ELSE MaxDepth
 Wide == depth < WideDepth
-Ops == IF Wide THEN {"N", "T", "H"} ELSE NarrowOps
+Ops == IF Wide THEN {"N", "T", "H", "B"} ELSE NarrowOps        \* the whole {dagger} x {transpose} grid
 Gids == IF Wide THEN WideGids ELSE {1}
 Routes == IF Wide THEN RoutesOf(geom.cls) ELSE NarrowRoutes(geom.cls)
 Sites == IF depth = 0 /\ lane # <<>> THEN {lane}
